@@ -2,6 +2,7 @@ package verif
 
 import (
 	"fmt"
+	"os"
 	"strings"
 	"time"
 )
@@ -107,6 +108,8 @@ func scenarioC05(r *Run) {
 		cfg.ClientCert = cell.ClientCert
 		cfg.RequireClientCert = cell.RequireCert
 		cfg.ServerCA = "good"
+		// in one run of three the server reads certificate and key from files
+		cfg.ServerCertFiles = c.Chance(1, 3, "server-cert-files")
 		// the upstream is named by host name or by IP literal; the good certificate covers both
 		cfg.UseHostName = c.Chance(1, 2, "upstream-by-name")
 		r.Info["upstream_by_name"] = cfg.UseHostName
@@ -233,6 +236,17 @@ func scenarioC05(r *Run) {
 			r.Count("fault_server_restart")
 			r.RunFor(95 * time.Second)
 		}
+	}
+	if cfg.ServerCertFiles && c.Chance(1, 2, "certificate-files-renewed") {
+		// the certificate and key files are renewed on disk while the server runs (same content, newer
+		// modification time - what a certificate-renewal job leaves behind): whatever the server makes of it,
+		// what it demands of its peers stays as configured
+		for _, p := range pkiPaths(cfg.ServerCert) {
+			if fi, err := os.Stat(p); err == nil {
+				os.Chtimes(p, fi.ModTime().Add(time.Hour), fi.ModTime().Add(time.Hour))
+			}
+		}
+		r.Count("certificate_files_renewed")
 	}
 	before := len(w.Targets[0].Peers())
 	lc2 := &LConn{I: 1, TIdx: 0, Lsn: lsn, Mode: "active"}
